@@ -279,6 +279,51 @@ def dftkernel_checks(ck, rng):
             w = np.linalg.eigvalsh(0.5 * (Kmm + Kmm.T))
             if w.min() < -1e-9 * max(1.0, np.abs(w).max()):
                 ck.violation("dftkernel:%s:kctrl-not-psd" % mode, {"nctrl": nctrl, "min_eig": float(w.min())})
+            # ---- kernel between samples and control points: input derivative against finite differences of get_k
+            dk.set_control_points([X0Tc], reduce=False)
+            for nspin_s in (1, 2):
+                X0Ts = rng.uniform(0.2, 1.8, size=(nspin_s, 4, 5))
+                ck.count(key=("dftkernel-kderiv", mode, nctrl, nspin_s))
+                try:
+                    k0, dk0 = dk.get_k_and_deriv(X0Ts.copy())
+                except Exception as ex:
+                    ck.violation("dftkernel:%s:get_k_and_deriv:%s" % (mode, type(ex).__name__), {"nspin": nspin_s, "msg": str(ex)[:200]})
+                    continue
+                kref = np.array(dk.get_k(X0Ts.copy()))
+                if np.abs(np.array(k0) - kref).max() > 1e-12 * (1 + np.abs(kref).max()):
+                    ck.violation("dftkernel:%s:get_k_and_deriv-value-differs-from-get_k" % mode, {"nspin": nspin_s})
+                h = 1e-5
+                worst = 0.0
+                for s_ in range(nspin_s):
+                    for i_ in range(4):
+                        D = np.zeros_like(X0Ts)
+                        D[s_, i_] = 1.0
+                        f1 = (np.array(dk.get_k(X0Ts + h * D)) - np.array(dk.get_k(X0Ts - h * D))) / (2 * h)
+                        f2 = (np.array(dk.get_k(X0Ts + 2 * h * D)) - np.array(dk.get_k(X0Ts - 2 * h * D))) / (4 * h)
+                        g = (4 * f1 - f2) / 3          # (nctrl, [nspin,] nsamp): derivative of every kernel entry w.r.t. feature (s_, i_) of ITS sample
+                        an = np.array(dk0)[:, s_, i_, :]          # (nctrl, nsamp)
+                        gg = g[:, s_, :] if g.ndim == 3 else g
+                        worst = max(worst, float((np.abs(an - gg) - 20 * np.abs(f1 - f2).reshape(g.shape)[(slice(None), s_) if g.ndim == 3 else slice(None)] - 1e-7 * (1 + np.abs(gg).max())).max()))
+                if worst > 0:
+                    ck.violation("dftkernel:%s:get_k_and_deriv-vs-fd" % mode, {"nspin": nspin_s, "nctrl": nctrl, "excess": worst})
+            # ---- control-point reduction keeps a SUBSET of the candidate points (pivoted Cholesky selection)
+            if nctrl == 7:
+                try:
+                    dk.set_control_points([X0Tc, X0Tc + 1e-9], reduce=True)          # near-duplicates must be dropped
+                    red = np.array(dk.X1ctrl)
+                    full = dk.X0Tlist_to_X1array([X0Tc, X0Tc + 1e-9])
+                    pts_r = red.reshape(2, -1, red.shape[-1]).transpose(1, 0, 2).reshape(red.shape[-2], -1) if mode == "POL" else red
+                    pts_f = np.array(full).reshape(2, -1, red.shape[-1]).transpose(1, 0, 2).reshape(np.array(full).shape[-2], -1) if mode == "POL" else np.array(full)
+                    inset = all(np.any(np.all(np.abs(pts_f - p_) < 1e-14, axis=1)) for p_ in pts_r)
+                    if not inset or not (0 < len(pts_r) <= len(pts_f) // 2 + 1):
+                        ck.violation("dftkernel:%s:control-point-reduction" % mode, {"kept": int(len(pts_r)), "candidates": int(len(pts_f)), "subset": bool(inset)})
+                    Kr = np.array(dk.get_kctrl())
+                    w_ = np.linalg.eigvalsh(0.5 * (Kr + Kr.T))
+                    if w_.min() <= 0:
+                        ck.violation("dftkernel:%s:reduced-covariance-not-positive-definite" % mode, {"min_eig": float(w_.min())})
+                except Exception as ex:
+                    ck.violation("dftkernel:%s:control-point-reduction:%s" % (mode, type(ex).__name__), {"msg": str(ex)[:200]})
+                dk.set_control_points([X0Tc], reduce=False)
             if mode == "POL":
                 X1c = dk.get_descriptors(X0Tc).reshape(2, nctrl, -1)
                 kaa, kbb, kab, kba = kern(X1c[0], X1c[0]), kern(X1c[1], X1c[1]), kern(X1c[0], X1c[1]), kern(X1c[1], X1c[0])
